@@ -12,4 +12,5 @@ if ! go build -o /verif/bin/mc.$$ . 2>/verif/bin/build.$$.err; then
 fi
 rm -f /verif/bin/build.$$.err
 mv -f /verif/bin/mc.$$ /verif/bin/mc
+if [ "$1" = replay ]; then exec /verif/bin/mc replay "$2"; fi
 exec /verif/bin/mc check "$1" --tier "${2:-quick}"
